@@ -200,6 +200,52 @@ func SchemaPattern(rel string) string {
 	return findPattern(doc)
 }
 
+// SchemaValue returns the first value (string, or integer in decimal) of member key found in the published schema
+// file data/schemas/<rel>, "" when there is none: "pattern", "format", "minLength", "maxLength".
+func SchemaValue(rel, key string) string {
+	data, err := os.ReadFile("/repo/data/schemas/" + rel)
+	if err != nil {
+		return ""
+	}
+	var doc interface{}
+	if json.Unmarshal(data, &doc) != nil {
+		return ""
+	}
+	var find func(v interface{}) (string, bool)
+	find = func(v interface{}) (string, bool) {
+		switch x := v.(type) {
+		case map[string]interface{}:
+			if p, ok := x[key]; ok {
+				switch pv := p.(type) {
+				case string:
+					return pv, true
+				case float64:
+					return strconv.FormatInt(int64(pv), 10), true
+				}
+			}
+			keys := make([]string, 0, len(x))
+			for k := range x {
+				keys = append(keys, k)
+			}
+			sort.Strings(keys)
+			for _, k := range keys {
+				if p, ok := find(x[k]); ok {
+					return p, true
+				}
+			}
+		case []interface{}:
+			for _, e := range x {
+				if p, ok := find(e); ok {
+					return p, true
+				}
+			}
+		}
+		return "", false
+	}
+	s, _ := find(doc)
+	return s
+}
+
 func findPattern(v interface{}) string {
 	switch x := v.(type) {
 	case map[string]interface{}:
